@@ -159,6 +159,7 @@ func (r *run) firstH(c context.Context, ctx *app.RequestContext) {
 	}
 	r.probe("ProbeO", "h", dumpCtx(ctx, false), dO)
 	r.probe("ProbeC", "h", dumpCtx(r.cp, true), r.dC)
+	r.origScheme = reparseScheme(ctx)
 	switch r.c.Ending {
 	case "abort":
 		r.emit("Ending", vtrace.Rec{"kind": "abort"})
@@ -244,6 +245,15 @@ func (r *run) finalProbe() {
 	}
 	r.probe("ProbeC", "end", dumpCtx(r.cp, true), r.dC)
 	r.emit("Retained", vtrace.Rec{"changed": changedRetained(r.ret)})
+	r.emit("Scheme", vtrace.Rec{"orig": r.origScheme, "copy": reparseScheme(r.cp)})
+}
+
+// reparseScheme makes the request parse an origin-form target anew and returns the scheme it derives: the only view of
+// Request.isTLS that does not go through CopyTo.  Destructive, so it is the last thing done to the original inside
+// its handler and the very last thing done to the copy.
+func reparseScheme(ctx *app.RequestContext) string {
+	ctx.Request.SetRequestURI("/x06-reparse")
+	return string(ctx.Request.URI().Scheme())
 }
 
 // freshCase: a context that never saw a server (app.NewContext): mutators, Copy, steps, Reset + sentinel fill.
@@ -265,6 +275,7 @@ func (r *run) freshCase() {
 	}
 	r.probe("ProbeO", "h", dumpCtx(ctx, false), dO)
 	r.probe("ProbeC", "h", dumpCtx(r.cp, true), r.dC)
+	r.origScheme = reparseScheme(ctx)
 	r.emit("Ending", vtrace.Rec{"kind": "return"})
 	ctx.Reset()
 	r.nsent++
